@@ -30,6 +30,9 @@ CONSTANTS MaxStmts,    \* statements (simple + if) in the whole program
           MaxSubs,     \* subroutines
           MaxDir,      \* directives
           RuleLists,   \* rule lists a directive may carry; {} = no list = every rule
+          Decl,        \* TRUE: also sites whose diagnostic is raised by a LATER pass but located in the statement:
+                       \* `declare local` (unused/variable, end of the subroutine) and an unused acl in front of the
+                       \* first subroutine (unused/declaration, end of the run); they carry the never-named rule only
           Switch,      \* TRUE: switch statements (one case holding statements) are generated too
           Odd,         \* TRUE: also the placements where a form covers nothing (falco-ignore on its own line, any
                        \* directive between `}` and `else` or at the end of the file); FALSE: leave them out
@@ -44,11 +47,12 @@ Types     == {"next", "this", "start", "end"}
 (* Shape generator                                                         *)
 (***************************************************************************)
 S == [k |-> "s", cons |-> <<>>, alt |-> <<>>]
+DeclStmt == [k |-> "d", cons |-> <<>>, alt |-> <<>>]      \* declare local var.x STRING;  (never read)
 
 RECURSIVE StmtsOf(_, _), BlocksOf(_, _), ProgsOf(_, _)
 \* statements with exactly n statements in them (itself included), if-depth <= d
 StmtsOf(n, d) ==
-  (IF n = 1 THEN {S} ELSE {}) \cup
+  (IF n = 1 THEN (IF Decl THEN {S, DeclStmt} ELSE {S}) ELSE {}) \cup
   (IF d = 0 THEN {} ELSE
      { [k |-> kk, cons |-> c, alt |-> <<>>] : kk \in (IF Switch THEN {"if", "switch"} ELSE {"if"}), c \in BlocksOf(n - 1, d - 1) } \cup
      UNION { { [k |-> kk, cons |-> c, alt |-> a] : kk \in {"ifelse", "ifelif"}, c \in BlocksOf(i, d - 1), a \in BlocksOf(n - 1 - i, d - 1) }
@@ -78,11 +82,13 @@ FlatStmts(b, bid, j) ==
   ELSE LET id == Append(bid, j)
            st == b[j]
        IN (CASE st.k = "s"  -> << <<"lead", id>>, <<"stmt", id>>, <<"trail", id>> >>
+             [] st.k = "d"  -> << <<"lead", id>>, <<"decl", id>>, <<"trail", id>> >>
              [] st.k = "if" -> << <<"lead", id>>, <<"if_open", id>> >> \o FlatBlock(st.cons, Append(id, 1))
                                \o << <<"if_close", id>> >>
              \* switch (..) { case "a": statements break; }: the statements of a case are not a block
+             \* (sw_end = the gap in front of `break;`)
              [] st.k = "switch" -> << <<"lead", id>>, <<"sw_open", id>> >> \o FlatStmts(st.cons, Append(id, 1), 1)
-                               \o << <<"sw_close", id>> >>
+                               \o << <<"sw_end", id>>, <<"sw_close", id>> >>
              [] OTHER       -> << <<"lead", id>>, <<"if_open", id>> >> \o FlatBlock(st.cons, Append(id, 1))
                                \o << <<"prelse", id>>, <<(IF st.k = "ifelse" THEN "else" ELSE "elif"), id>> >>
                                \o FlatBlock(st.alt, Append(id, 2))
@@ -97,13 +103,17 @@ FlatProgFrom(p, i, skip) ==
         THEN << <<"sublead", <<i>>>>, <<"sub_skip", <<i>>>> >>
         ELSE << <<"sublead", <<i>>>>, <<"sub_open", <<i>>>> >> \o FlatBlock(p[i], <<i>>) \o << <<"sub_close", <<i>>>> >>)
        \o FlatProgFrom(p, i + 1, skip)
-FlatProg(p, skip) == FlatProgFrom(p, 1, skip)
+\* rd: an unused acl declaration (with its own leading gap) in front of the first subroutine
+FlatProg(p, skip, rd) == (IF rd THEN << <<"sublead", <<0>>>>, <<"rootdecl", <<0>>>> >> ELSE <<>>) \o FlatProgFrom(p, 1, skip)
 
 Kind(e, n) == e[n][1]
 Id(e, n)   == e[n][2]
 IsPrefix(a, b) == Len(a) <= Len(b) /\ SubSeq(b, 1, Len(a)) = a
-Sites(e)   == { n \in DOMAIN e : Kind(e, n) \in {"stmt", "if_open", "elif"} }
-OwnLine(e, n) == Kind(e, n) \in {"lead", "sublead", "block_end", "prelse", "eof"}
+Sites(e)   == { n \in DOMAIN e : Kind(e, n) \in {"stmt", "if_open", "elif", "decl", "rootdecl"} }
+\* rules of the diagnostics a site carries
+SiteRules(e, n) == IF Kind(e, n) \in {"decl", "rootdecl"} THEN {"r3"} ELSE Rules
+AllPairs(e) == { p \in Sites(e) \X Rules : p[2] \in SiteRules(e, p[1]) }
+OwnLine(e, n) == Kind(e, n) \in {"lead", "sublead", "block_end", "sw_end", "prelse", "eof"}
 GapOf(e, kind, id) == CHOOSE g \in DOMAIN e : Kind(e, g) = kind /\ Id(e, g) = id
 
 (***************************************************************************)
@@ -149,7 +159,7 @@ DirSeqs(e) == DirSeqsFrom(e, LegalDirs(e), 1, MaxDir)
 (***************************************************************************)
 Match(d, r) == d.rules = {} \/ r \in d.rules
 NextCovers(e, d, n) == d.type = "next" /\ Kind(e, d.at) \in {"lead", "sublead"} /\ IsPrefix(Id(e, d.at), Id(e, n))
-ThisCovers(e, d, n) == d.type = "this" /\ Kind(e, d.at) = "trail" /\ Kind(e, n) = "stmt" /\ Id(e, d.at) = Id(e, n)
+ThisCovers(e, d, n) == d.type = "this" /\ Kind(e, d.at) = "trail" /\ Kind(e, n) \in {"stmt", "decl"} /\ Id(e, d.at) = Id(e, n)
 
 RangeStep(s, d) ==
   CASE d.type = "start" -> [on      |-> IF d.rules = {} THEN Rules ELSE s.on \cup d.rules,
@@ -165,10 +175,10 @@ RangeFold(ds, i, n, s) == IF i > Len(ds) \/ ds[i].at >= n THEN s ELSE RangeFold(
 RangeBefore(ds, n) == RangeFold(ds, 1, n, [on |-> {}, allopen |-> FALSE, amb |-> FALSE])
 
 Covered(e, ds) ==
-  { p \in Sites(e) \X Rules :
+  { p \in AllPairs(e) :
       \/ \E i \in DOMAIN ds : Match(ds[i], p[2]) /\ (NextCovers(e, ds[i], p[1]) \/ ThisCovers(e, ds[i], p[1]))
       \/ p[2] \in RangeBefore(ds, p[1]).on }
-Required(e, ds) == (Sites(e) \X Rules) \ Covered(e, ds)
+Required(e, ds) == AllPairs(e) \ Covered(e, ds)
 Silent(e, ds) ==
   LET fin == RangeBefore(ds, Len(e) + 1) IN
   \/ fin.amb \/ fin.on # {}
@@ -226,11 +236,12 @@ VARIABLES ev, dirs,     \* the program (constant along a behaviour)
           req, silent,  \* requirement layer evaluated once: pairs that must survive; requirement silent?
           pc,           \* next event of the walk
           ig,           \* the linter's ignore state
-          rep           \* (site, rule) reported so far
-vars == <<ev, dirs, req, silent, pc, ig, rep>>
+          rep,          \* (site, rule) reported so far
+          pend          \* unused acl sites whose report is still to come (raised by the pass after the walk)
+vars == <<ev, dirs, req, silent, pc, ig, rep, pend>>
 
 \* comment gaps are not steps of the walk: pc always rests on the next node event
-IsGap(n) == Kind(ev, n) \in {"sublead", "lead", "block_end", "prelse", "eof"}
+IsGap(n) == Kind(ev, n) \in {"sublead", "lead", "block_end", "sw_end", "prelse", "eof"}
 RECURSIVE SkipGaps(_)
 SkipGaps(n) == IF n <= Len(ev) /\ IsGap(n) THEN SkipGaps(n + 1) ELSE n
 
@@ -244,11 +255,12 @@ OneThisPerGap(D) == \A x, y \in D : (Kind(ev, x.at) = "trail" /\ x.at = y.at) =>
 \* the successors of different programs on different workers.
 Init ==
   /\ \E p \in (IF Sample = 0 THEN Programs ELSE RandomSubset(Sample, Programs)) :
-       \E skip \in {0} \cup { i \in DOMAIN p : p[i] = <<>> } : ev = FlatProg(p, skip)
+       \E skip \in {0} \cup { i \in DOMAIN p : p[i] = <<>> } : \E rd \in (IF Decl THEN BOOLEAN ELSE {FALSE}) :
+          ev = FlatProg(p, skip, rd)
   /\ dirs = <<>> /\ req = {} /\ silent = FALSE
   /\ pc = 0
   /\ ig = Ig0
-  /\ rep = {}
+  /\ rep = {} /\ pend = {}
 
 Placements ==
   IF Sample = 0 THEN DirSeqs(ev)
@@ -260,28 +272,34 @@ Place ==
        /\ req' = Required(ev, ds)
        /\ silent' = Silent(ev, ds)
   /\ pc' = SkipGaps(1)
-  /\ UNCHANGED <<ev, ig, rep>>
+  /\ UNCHANGED <<ev, ig, rep, pend>>
 
 Leading(kind, id) == DirsAt(dirs, GapOf(ev, kind, id))
-Report(g) == rep' = rep \cup { <<pc, r>> : r \in Survivors(g) }
+Report(g) == rep' = rep \cup { <<pc, r>> : r \in Survivors(g) \cap SiteRules(ev, pc) } /\ UNCHANGED pend
+\* a declaration that is not used: if its rule is ignored at this point it is marked as used (never reported),
+\* otherwise the report is raised by the pass that runs later - and goes through the filter as it is THEN
+Defer(g) == pend' = (IF "r3" \in Survivors(g) THEN pend \cup {pc} ELSE pend) /\ UNCHANGED rep
 
 \* lintStatement(sub declaration): SetupStatement, then lintBlockStatement's SetupBlockStatement (`{` has no comments)
 SubOpen == /\ Kind(ev, pc) = "sub_open"
            /\ ig' = SetupBlock(SetupStatement(ig, Leading("sublead", Id(ev, pc)), <<>>), <<>>)
-           /\ UNCHANGED rep
+           /\ UNCHANGED <<rep, pend>>
 \* a subroutine excluded by the configuration: lintStatement still sets up and tears down around it
 SubSkip == /\ Kind(ev, pc) = "sub_skip"
            /\ ig' = TeardownStatement(SetupStatement(ig, Leading("sublead", Id(ev, pc)), <<>>))
-           /\ UNCHANGED rep
+           /\ UNCHANGED <<rep, pend>>
 SubClose == /\ Kind(ev, pc) = "sub_close"
             /\ ig' = TeardownStatement(TeardownBlock(ig, Leading("block_end", Id(ev, pc))))
-            /\ UNCHANGED rep
+            /\ UNCHANGED <<rep, pend>>
 \* simple statement: SetupStatement (leading and trailing comments), diagnostics through Linter.Error
-Stmt == /\ Kind(ev, pc) = "stmt"
+\* (a declare statement is such a statement: its unused-variable report is raised when the subroutine has been
+\* linted, but whether it is made is decided here - lintDeclareStatement marks the variable as used if the rule is
+\* ignored at this point, and lintUnusedVariables does not ask the filter again)
+Stmt == /\ Kind(ev, pc) \in {"stmt", "decl"}
         /\ LET g == SetupStatement(ig, Leading("lead", Id(ev, pc)), Leading("trail", Id(ev, pc))) IN
            ig' = g /\ Report(g)
 Trail == /\ Kind(ev, pc) = "trail"
-         /\ ig' = TeardownStatement(ig) /\ UNCHANGED rep
+         /\ ig' = TeardownStatement(ig) /\ UNCHANGED <<rep, pend>>
 \* if: SetupStatement (its Trailing list is empty: the block took it), condition linted, SetupBlockStatement(consequence)
 IfOpen == /\ Kind(ev, pc) = "if_open"
           /\ LET g == SetupStatement(ig, Leading("lead", Id(ev, pc)), <<>>) IN
@@ -289,12 +307,18 @@ IfOpen == /\ Kind(ev, pc) = "if_open"
 \* switch: SetupStatement around the whole statement; lintSwitchStatement sends every statement of a case
 \* through lintStatement (simple statements and ifs are walked as everywhere else)
 SwOpen == /\ Kind(ev, pc) = "sw_open"
-          /\ ig' = SetupStatement(ig, Leading("lead", Id(ev, pc)), <<>>) /\ UNCHANGED rep
+          /\ ig' = SetupStatement(ig, Leading("lead", Id(ev, pc)), <<>>) /\ UNCHANGED <<rep, pend>>
+\* break: nothing to lint, setup and teardown on its leading comments; then the switch statement is left
 SwClose == /\ Kind(ev, pc) = "sw_close"
-           /\ ig' = TeardownStatement(ig) /\ UNCHANGED rep
+           /\ ig' = TeardownStatement(TeardownStatement(SetupStatement(ig, Leading("sw_end", Id(ev, pc)), <<>>)))
+           /\ UNCHANGED <<rep, pend>>
+\* an acl declaration at root level: lintAclDeclaration marks it used if unused/declaration is ignored here
+RootDecl == /\ Kind(ev, pc) = "rootdecl"
+            /\ LET g == SetupStatement(ig, Leading("sublead", Id(ev, pc)), <<>>) IN
+               ig' = TeardownStatement(g) /\ Defer(g)
 Else == /\ Kind(ev, pc) = "else"
         /\ ig' = SetupBlock(TeardownBlock(ig, Leading("block_end", Append(Id(ev, pc), 1))), <<>>)
-        /\ UNCHANGED rep
+        /\ UNCHANGED <<rep, pend>>
 \* `else if (cond)`: the consequence block is left, the second condition is linted (no setup of its own: the
 \* else-if node is not a statement of the walk), then its block is entered
 Elif == /\ Kind(ev, pc) = "elif"
@@ -303,17 +327,22 @@ Elif == /\ Kind(ev, pc) = "elif"
 IfClose == /\ Kind(ev, pc) = "if_close"
            /\ LET last == IF \E g \in DOMAIN ev : Kind(ev, g) \in {"else", "elif"} /\ Id(ev, g) = Id(ev, pc) THEN 2 ELSE 1 IN
               ig' = TeardownStatement(TeardownBlock(ig, Leading("block_end", Append(Id(ev, pc), last))))
-           /\ UNCHANGED rep
+           /\ UNCHANGED <<rep, pend>>
 
 Walk == /\ pc >= 1 /\ pc <= Len(ev)
-        /\ (SubOpen \/ SubSkip \/ SubClose \/ SwOpen \/ SwClose \/ Stmt \/ Trail \/ IfOpen \/ Else \/ Elif \/ IfClose)
+        /\ (RootDecl \/ SubOpen \/ SubSkip \/ SubClose \/ SwOpen \/ SwClose \/ Stmt \/ Trail \/ IfOpen \/ Else \/ Elif \/ IfClose)
         /\ pc' = SkipGaps(pc + 1)
         /\ UNCHANGED <<ev, dirs, req, silent>>
-Next == Place \/ Walk
+\* Linter.Lint, after the walk: lintUnusedAcls ... report what is still pending, through the filter as it is now
+PostPass == /\ pc = Len(ev) + 1
+            /\ rep' = rep \cup (IF "r3" \in Survivors(ig) THEN { <<n, "r3">> : n \in pend } ELSE {})
+            /\ pend' = {} /\ pc' = Len(ev) + 2
+            /\ UNCHANGED <<ev, dirs, req, silent, ig>>
+Next == Place \/ Walk \/ PostPass
 Spec == Init /\ [][Next]_vars
 
-Done == pc = Len(ev) + 1
-Visited == { p \in Sites(ev) \X Rules : p[1] < pc }
+Done == pc = Len(ev) + 2
+Visited == { p \in AllPairs(ev) : p[1] < pc }
 \* A diagnostic raised after the walk (the unused-declaration passes) and located in front of the first
 \* subroutine: the requirement wants it reported (nothing covers it); the mechanism reports it unless
 \* some set still has its `all` flag (its rule is never named in a rule list).
@@ -324,7 +353,9 @@ EofMech == ~(ig.nx.all \/ ig.th.all \/ ig.rg.all)
 (* mechanism |= requirement                                                *)
 (***************************************************************************)
 \* every diagnostic reported so far is one the requirement wants, and none is missing
-Exact == ~silent => rep = req \cap Visited
+\* (a pending report counts as made: where the requirement is not silent, no directive outlives its statement or
+\* range, so the later pass finds the filter open)
+Exact == ~silent => rep \cup { <<n, "r3">> : n \in pend } = req \cap Visited
 \* setup and teardown calls are paired
 Balanced == Done => ig.stack = <<>>
 \* nothing outlives the walk: no directive's effect leaks past the end of the file
@@ -339,7 +370,7 @@ SetToSeq(X) == LET RECURSIVE F(_) F(Y) == IF Y = {} THEN <<>> ELSE LET y == CHOO
 Pairs(P) == SetToSeq({ [site |-> p[1], rule |-> p[2]] : p \in P })
 DirJ(d) == [at |-> d.at, type |-> d.type, rules |-> SetToSeq(d.rules)]
 Behaviour == [ev |-> ev, dirs |-> [i \in DOMAIN dirs |-> DirJ(dirs[i])],
-              all |-> Pairs(Sites(ev) \X Rules),
+              all |-> Pairs(AllPairs(ev)),
               req |-> Pairs(req), mech |-> Pairs(rep), silent |-> silent,
               eofreq |-> EofReq, eofmech |-> EofMech]
 EmitInv == Done => PrintT(<<"BEHAVIOUR", ToJson(Behaviour)>>)
